@@ -45,6 +45,9 @@ type World struct {
 	topContract   *Contract
 	splits        []Term
 	quantFacts    []quantFact
+	loopFreshOnly map[string]bool
+	loopKeysExtra []string
+	curBlock      *ssa.BasicBlock
 	muted         int
 	forcedNext    map[*ssa.Next]*Val
 	loopTargets   map[string][]loopTarget
